@@ -33,15 +33,15 @@ theorem cumsum_diffs_getElem (x : Nat) (xs : List Nat) (acc : Int) (k : Nat) (hk
       omega
 
 theorem gapCount_length (x : Nat) (xs : List Nat) : (gapCount (x :: xs)).length = (x :: xs).length := by
-  simp [gapCount, cumsum, cumsum_length, diffs_length]
+  simp [gapCount, gapStart, gapStep, cumsum, cumsum_length, diffs_length]
 
 theorem gapCount_getElem (x : Nat) (xs : List Nat) (k : Nat) (hk : k < (x :: xs).length)
     (hk' : k < (gapCount (x :: xs)).length) :
     (gapCount (x :: xs))[k] = (((x :: xs)[k] : Nat) : Int) - (x : Int) - (k : Int) := by
   cases k with
-  | zero => simp [gapCount, cumsum]
+  | zero => simp [gapCount, gapStart, gapStep, cumsum]
   | succ k =>
-    simp only [gapCount, cumsum, List.getElem_cons_succ]
+    simp only [gapCount, gapStart, gapStep, cumsum, List.getElem_cons_succ]
     rw [cumsum_diffs_getElem x xs _ k (by simpa using hk)]
     push_cast
     omega
